@@ -4,11 +4,11 @@ cd "$(dirname "$0")/.."
 tier=${1:-quick}; shift 2>/dev/null
 ids="$*"
 [ -n "$ids" ] || ids=$(ls checks/c*.py | sed 's/.*\/c\([0-9]*\)\.py/C\1/')
-mkdir -p /tmp/verif-runall
+L=${RUNALL_LOG:-/tmp/verif-runall}; mkdir -p "$L"
 for id in $ids; do
   start=$(date +%s)
-  ./check "$id" --tier "$tier" > "/tmp/verif-runall/$id.log" 2>&1
+  ./check "$id" --tier "$tier" > "$L/$id.log" 2>&1
   rc=$?
   end=$(date +%s)
-  echo "$id rc=$rc $((end-start))s $(grep -c '^KNOWN-FINDING' /tmp/verif-runall/$id.log) known; $(grep -c '^VIOLATION' /tmp/verif-runall/$id.log) viol; $(tail -1 /tmp/verif-runall/$id.log | cut -c1-160)"
+  echo "$id rc=$rc $((end-start))s $(grep -c '^KNOWN-FINDING' $L/$id.log) known; $(grep -c '^VIOLATION' $L/$id.log) viol; $(tail -1 $L/$id.log | cut -c1-160)"
 done
